@@ -312,20 +312,25 @@ EFFECT_GROUP = {'BOLDNESS': 'bold', 'ITALICS': 'ital', 'UNDERLINE': 'ul', 'BLINK
 
 @op('pgs')
 def _pgs(m, o):
+    """codes: ints; -1 stands for an EMPTY parameter ('' between two separators), which a terminal reads as 0."""
     codes = list(o['codes'])
     enc = o['enc']
+    txt = lambda c: '' if c == -1 else str(c)
     if enc == 'str':
-        arg = ';'.join(str(c) for c in codes)
+        arg = ';'.join(txt(c) for c in codes)
     elif enc == 'ints':
-        arg = list(codes)
+        arg = [('' if c == -1 else c) for c in codes]
     else:
-        arg = [str(c) for c in codes]
+        arg = [txt(c) for c in codes]
     adderr = bool(o.get('adderr'))
     a = {'codes': codes, 'enc': enc, 'adderr': b(adderr)}
+    before = list(arg) if isinstance(arg, list) else arg
+    types_before = [type(x) for x in arg] if isinstance(arg, list) else None
 
     def obs(v):
         red = m.lib.settings_to_dict(v)
-        return {'res': m.texts.tids([str(x) for x in v]), 'red': m.texts.tids([str(x) for x in red.values()])}
+        same = arg == before and (types_before is None or [type(x) for x in arg] == types_before)
+        return {'res': m.texts.tids([str(x) for x in v]), 'red': m.texts.tids([str(x) for x in red.values()]), 'args_same': b(same)}
     return a, (lambda: m.lib.parse_graphic_sequence(arg, adderr)), 'scalar', {'obs': obs}
 
 
